@@ -429,6 +429,14 @@ def run_readonly(spec, out):
                     ("openbin_update_existing", lambda: _write_through(view, k_file, rnd_mode())),
                     ("openbin_append", lambda: _write_through(view, k_file, "ab")),
                     ("mount_then_store", lambda: _mount_then_store(view, k_new)),
+                    # wrappers stacked above the view (an indexer, as for the served stores) must not find a way round it;
+                    # for these any refusal is accepted, what counts is that the underlying store stays as it is
+                    ("indexer_over_view_store", lambda: view.with_indexer().store(k_new, b"RO", {"x": 1})),
+                    ("indexer_over_view_store_existing", lambda: view.with_indexer().store(k_file, b"RO", {"x": 1})),
+                    ("indexer_over_view_store_metadata", lambda: view.with_indexer().store_metadata(k_file, {"x": 1})),
+                    ("indexer_over_view_remove", lambda: view.with_indexer().remove(k_file)),
+                    ("indexer_over_view_makedir", lambda: view.with_indexer().makedir(k_new)),
+                    ("indexer_over_view_openbin_w", lambda: _write_through(view.with_indexer(), k_new)),
                 ]
                 for name, fn in muts:
                     out["counters"]["mutator." + name] = out["counters"].get("mutator." + name, 0) + 1
@@ -440,7 +448,7 @@ def run_readonly(spec, out):
                         pass
                     except Exception as e:
                         # refused, but not with the read-only error
-                        if name not in ("mount_then_store",):
+                        if name not in ("mount_then_store",) and not name.startswith("indexer_over_view"):
                             viol("%s refused with another error" % name, "%s: %r" % (type(e).__name__, str(e)[:100]))
                     now = storecfg.snapshot(built)
                     if now != snap:
